@@ -181,6 +181,14 @@ func (f *fake) ServeHTTP(rw http.ResponseWriter, req *http.Request) {
 		finish()
 		f.prepareNext(k)
 		return
+	case "closed":
+		// the worker process died: its connection ends without a single reply byte
+		hj, _ := rw.(http.Hijacker)
+		conn, _, _ := hj.Hijack()
+		conn.Close()
+		finish()
+		f.prepareNext(k)
+		return
 	case "tokenRetryable":
 		js(map[string]any{"Err": "scripted retryable", "Retryable": true})
 	case "tokenFatal":
@@ -223,6 +231,8 @@ func classify(err error) string {
 		return "attemptTimeout"
 	case errors.Is(err, io.ErrUnexpectedEOF):
 		return "eof"
+	case errors.Is(err, io.EOF):
+		return "closed"
 	case errors.As(err, &se):
 		return "malformed"
 	case msg == "scripted retryable":
